@@ -1,4 +1,5 @@
 import SppModel.Lemmas.Meta
+import SppModel.Frozen.HeaderUpdates
 /-!
 # C08 — derived headers describe the derived data
 
@@ -18,7 +19,7 @@ into `Generated/HeaderUpdates.lean` (`Site h params… : Hdr`, exact over ℚ). 
 7. `ftop / fbottom / fcenter` sanity.
 -/
 namespace SppModel.Meta
-open SppModel.Generated.HeaderUpdates
+open SppModel.Frozen.HeaderUpdates
 
 /-! ## 1. tstart -/
 
@@ -280,7 +281,7 @@ example : roundHalfEven ((3 : ℚ) - 1 / 100) = 3 := by decide +kernel
 
 /-! ## 6. no silently dropped keys -/
 
-theorem no_dropped_keys : ∀ p ∈ allDropped, p.2 = [] := by decide +kernel
+theorem no_dropped_keys : ∀ p ∈ Generated.HeaderUpdates.allDropped, p.2 = [] := by decide +kernel
 
 /-! ## 7. band edges -/
 
